@@ -524,6 +524,22 @@ def run_step(w, st):
         return "err:" + err_class(e), extra
 
 
+# operations that have no business raising AttributeError / NameError / UnboundLocalError / RecursionError: those are crashes on a
+# legitimate call, not refusals (attribute-style column access and the read-only probes are excluded: there AttributeError is the
+# documented answer for a missing column / a method the element type does not have)
+NO_CRASH_OPS = {"newvec", "newtab", "tabfrom", "copy", "slice", "mask", "select", "stack", "stackdict", "stackdictv", "append",
+                "appendt", "T", "sort", "sortv", "aggregate", "window", "arith", "tarith", "compare", "unary", "fillna", "write",
+                "tabwrite", "rename", "renames", "fingerprint", "repr", "sharevec", "setname"}
+CRASH_CLASSES = {"attr", "other:NameError", "other:UnboundLocalError", "other:RecursionError"}
+
+
+def crash_of(st, res):
+    """a sentence if step `st` ended in a crash class, else None"""
+    if isinstance(res, str) and res.startswith("err:") and res[4:] in CRASH_CLASSES and st.get("op") in NO_CRASH_OPS:
+        return f"{st['op']} crashed with {res[4:].replace('other:', '').replace('attr', 'AttributeError')} on a legitimate call (a crash, not a refusal): {st!r}"
+    return None
+
+
 def valid_result(w, st):
     """a derived object that is neither a flat vector nor a table of flat vectors is outside the modelled space
     (e.g. `t >> Vector(wrong length)` gives a nested non-Table vector): drop it"""
